@@ -98,7 +98,7 @@ class Sim:
     def op(self, line):
         if self.dead:
             return "dead"
-        out = self.it.op(line, timeout=4)
+        out = self.it.op(line, timeout=20)
         self.ops.append(line); self.outs.append(out)
         if out.startswith("trap") or out in ("hang", "abort"):
             self.dead = True
